@@ -612,16 +612,19 @@ def parse_tree_to_objgraph(
                 # with matched concrete meta-class down the inheritance tree.
                 # Abstract meta-class should never be instantiated.
                 if len(node) > 1:
+                    non_terminals = [n for n in node if type(n) is not Terminal]
                     try:
                         return process_node(
                             next(
                                 n
-                                for n in node
-                                if type(n) is not Terminal
-                                and n.rule._tx_class is not RULE_MATCH
+                                for n in non_terminals
+                                if n.rule._tx_class._tx_type is not RULE_MATCH
                             )
                         )  # noqa
                     except StopIteration:
+                        if non_terminals:
+                            # Only match rules are referenced
+                            return process_node(non_terminals[0])
                         # All nodes are match rules, do concatenation
                         return "".join(str(n) for n in node)
                 else:
